@@ -148,6 +148,24 @@ func c14Templates() []c14Template {
 			c14IntIs(r, "t", 4+10*x, "C14/dsl/loop/for-key-value-in-insertion-order")
 			c14Absent(r, "k", "C14/dsl/loop/loop-variable-scoped-to-the-loop")
 		}},
+		// multi-key for loop over a nested map: break leaves the whole loop, continue skips one leaf
+		{verifDSL(`s = 0; for ((k1, k2), v in {"a": {"x": 1, "y": 2}, "b": {"x": 3, "y": 4}}) { if (v == $x) {break} s += v } t = 0; for ((k1, k2), v in {"a": {"x": 1, "y": 2}, "b": {"x": 3, "y": 4}}) { if (v == $x) {continue} t += v } $s = s; $t = t`), func(x int64, r *mlrval.Mlrmap) {
+			s, t := int64(0), int64(0)
+			broke := false
+			for v := int64(1); v <= 4; v++ {
+				if v == x {
+					broke = true
+				}
+				if !broke {
+					s += v
+				}
+				if v != x {
+					t += v
+				}
+			}
+			c14IntIs(r, "s", s, "C14/dsl/loop/multi-key-for-break-leaves-the-whole-loop")
+			c14IntIs(r, "t", t, "C14/dsl/loop/multi-key-for-continue-skips-one-leaf")
+		}},
 		// recursion and return
 		{verifDSL(`func f(n) { if (n <= 1) {return 1} return n * f(n-1) } $y = f($x)`), func(x int64, r *mlrval.Mlrmap) {
 			f := int64(1)
@@ -321,4 +339,133 @@ func VerifC14_dsl_oosvars_and_type_gates() {
 		}
 	}
 	verifReach("C14/dsl/oosvars-types/end")
+}
+
+// emit-by-names splits nested maps exactly as grouping would: @sum[$a][$b] += $x over three records
+// (a ∈ {p,q}, b ∈ {u,v} chosen per record, x a symbolic int), then the emit family in the end block.
+// Reference: the (a,b) groups with their sums and counts, nested in first-appearance order (a, then
+// b within a).
+func VerifC14_dsl_emit_family() {
+	type rec struct {
+		a, b string
+		x    int64
+	}
+	var in []rec
+	for i := 0; i < 3; i++ {
+		r := rec{a: []string{"p", "q"}[verifChoice("a", 2)], b: []string{"u", "v"}[verifChoice("b", 2)], x: verifInt64("x")}
+		verifAssume(r.x >= -4 && r.x <= 4)
+		in = append(in, r)
+	}
+	type grp struct {
+		a, b       string
+		sum, count int64
+	}
+	var as []string
+	var groups []grp // nested order: by a's first appearance, then b's first appearance within a
+	for _, r := range in {
+		if !c12In(r.a, as) {
+			as = append(as, r.a)
+		}
+	}
+	for _, a := range as {
+		for _, r := range in {
+			if r.a != a {
+				continue
+			}
+			found := false
+			for k := range groups {
+				if groups[k].a == a && groups[k].b == r.b {
+					groups[k].sum += r.x
+					groups[k].count++
+					found = true
+				}
+			}
+			if !found {
+				groups = append(groups, grp{a, r.b, r.x, 1})
+			}
+		}
+	}
+	stmts := []string{
+		verifDSL(`@sum[$a][$b] += $x; @count[$a][$b] += 1; @n += 1; end { emit @sum, "a", "b" }`),
+		verifDSL(`@sum[$a][$b] += $x; @count[$a][$b] += 1; @n += 1; end { emitp @sum, "a", "b" }`),
+		verifDSL(`@sum[$a][$b] += $x; @count[$a][$b] += 1; @n += 1; end { emit (@sum, @count), "a", "b" }`),
+		verifDSL(`@sum[$a][$b] += $x; @count[$a][$b] += 1; @n += 1; end { emit @sum, "a" }`),
+		verifDSL(`@sum[$a][$b] += $x; @count[$a][$b] += 1; @n += 1; end { emitf @n; emit1 {"k": 1} }`),
+		verifDSL(`@sum[$a][$b] += $x; @count[$a][$b] += 1; end { emit @*, "a", "b" }`),
+		verifDSL(`@sum[$a][$b] += $x; @count[$a][$b] += 1; end { emit {"s": @sum, "c": @count}, "a", "b" }`),
+	}
+	which := verifChoice("statement", len(stmts))
+	tr := verifPut(stmts[which])
+	var recs []*mlrval.Mlrmap
+	for _, r := range in {
+		m := mlrval.NewMlrmapAsRecord()
+		m.PutReference("a", mlrval.FromString(r.a))
+		m.PutReference("b", mlrval.FromString(r.b))
+		m.PutReference("x", mlrval.FromInt(r.x))
+		recs = append(recs, m)
+	}
+	all := verifPutRun(tr, recs)
+	verifAssert(len(all) >= 3, "C14/emit/records-pass-through")
+	if len(all) < 3 {
+		return
+	}
+	out := all[3:] // what the end block emitted
+	switch which {
+	case 0, 1, 2:
+		verifAssert(len(out) == len(groups), "C14/emit/one-record-per-leaf-group")
+		for k := 0; k < len(out) && k < len(groups); k++ {
+			a, _ := c14Str(out[k], "a")
+			b, _ := c14Str(out[k], "b")
+			verifAssert(a == groups[k].a && b == groups[k].b, "C14/emit/split-by-names-in-nested-first-appearance-order")
+			c14IntIs(out[k], "sum", groups[k].sum, "C14/emit/leaf-value-under-the-variable's-name")
+			if which == 2 {
+				c14IntIs(out[k], "count", groups[k].count, "C14/emit/lashed-emit-carries-both-variables")
+				verifAssert(c14Keys(out[k]) == "a,b,sum,count", "C14/emit/lashed-record-shape")
+			} else {
+				verifAssert(c14Keys(out[k]) == "a,b,sum", "C14/emit/record-shape")
+			}
+		}
+	case 3:
+		verifAssert(len(out) == len(as), "C14/emit/one-record-per-first-level-key")
+		for k := 0; k < len(out) && k < len(as); k++ {
+			a, _ := c14Str(out[k], "a")
+			verifAssert(a == as[k], "C14/emit/first-level-keys-in-first-appearance-order")
+			keys := "a"
+			for _, g := range groups {
+				if g.a == as[k] {
+					keys += "," + g.b
+					c14IntIs(out[k], g.b, g.sum, "C14/emit/remaining-level-becomes-columns")
+				}
+			}
+			verifAssert(c14Keys(out[k]) == keys, "C14/emit/columns-in-first-appearance-order")
+		}
+	case 5, 6:
+		// several emittables, not lashed: each is split by the names in turn, under its own name
+		n1, n2 := "sum", "count"
+		if which == 6 {
+			n1, n2 = "s", "c"
+		}
+		verifAssert(len(out) == 2*len(groups), "C14/emit/each-emittable-split-in-turn")
+		for k := 0; k < len(groups) && len(out) == 2*len(groups); k++ {
+			for half, nm := range []string{n1, n2} {
+				r := out[half*len(groups)+k]
+				a, _ := c14Str(r, "a")
+				b, _ := c14Str(r, "b")
+				verifAssert(a == groups[k].a && b == groups[k].b, "C14/emit/multi-emittable-split-by-names")
+				want := groups[k].sum
+				if half == 1 {
+					want = groups[k].count
+				}
+				c14IntIs(r, nm, want, "C14/emit/each-emittable-under-its-own-name")
+				verifAssert(c14Keys(r) == "a,b,"+nm, "C14/emit/multi-emittable-record-shape")
+			}
+		}
+	case 4:
+		verifAssert(len(out) == 2, "C14/emitf-emit1/two-records")
+		if len(out) == 2 {
+			c14IntIs(out[0], "n", 3, "C14/emitf/variable-under-its-name")
+			c14IntIs(out[1], "k", 1, "C14/emit1/map-literal")
+		}
+	}
+	verifReach("C14/emit/end")
 }
